@@ -742,3 +742,44 @@ prop(dict(
          "non-trivial = at least one packet of frame A delivered; distinct = distinct case records",
     assumptions=COMMON_ASSUME + ["the oracle is the statement's: a fresh real depacketizer fed frame B only"],
 ))
+
+
+# ---------------------------------------------------------------- C12
+def rand_c12(seed, tier, cases=None):
+    rng = random.Random(seed * 7919 + 12)
+    out = []
+    for _ in range(400 if tier == "quick" else 8000):
+        mtu = rng.choice([12, 13, 15, 20, 64, 200, 1200, rng.randint(12, 1500)])
+        frames = []
+        for n in range(rng.randint(1, 4)):
+            pr = rng.randint(0, 3)
+            hdr = dict(profile=pr, existing=False, idx=0, nonkey=rng.random() < 0.5, show=rng.random() < 0.5, errres=rng.random() < 0.5, deep=rng.random() < 0.5,
+                       cs=rng.randint(0, 7), range=rng.random() < 0.5, ssx=rng.random() < 0.5, ssy=rng.random() < 0.5,
+                       w=rng.choice([1, 2, 640, 1920, 65535, rng.randint(1, 65535)]), h=rng.choice([1, 480, 1080, 65535, rng.randint(1, 65535)]))
+            frames.append(dict(hdr=hdr, body=rng.choice([0, 1, mtu - 12, mtu - 3, mtu, 2 * mtu, rng.randint(0, 3 * mtu)]), salt=rng.randint(0, 200)))
+        for f in frames:
+            f["body"] = max(0, f["body"])
+        out.append(dict(fam="C12", kind="payload", valid=True, mtu=mtu, flexible=rng.random() < 0.5, startid=rng.choice([0, 32767, 32766, rng.randint(0, 32767)]),
+                        frames=frames, **{"class": "rand_payload"}))
+    return out
+
+
+prop(dict(
+    id="C12", fam="C12",
+    mc=[("VP9MC.tla", "VP9MC.cfg")],
+    gen=[("VP9Gen.tla", "VP9Gen.cfg", {"thorough": {"TruncStride": "3", "Mtus": "{12, 13, 14, 15, 16, 20, 100, 1200}"}})],
+    rand=rand_c12,
+    trace=("VP9Trace.tla", "VP9Trace.cfg"),
+    shards={"quick": 2, "thorough": 12},
+    workers=16,
+    nontrivial=lambda c: True,
+    mandatory=["desc", "desc_ss", "desc_ss_refs_layer_pid", "trunc_descriptor", "trunc_payload", "header_key_p0", "header_key_p3", "header_inter_p1", "header_show_existing_p2",
+               "header_key_p1_65536", "payload_flexible_small_mtu", "payload_nonflexible_small_mtu", "payload_nonflexible_large_mtu", "rand_payload"],
+    rule="TLC enumerates all 256 descriptor flag bytes x 20 field variants (7/15-bit picture ids at boundaries, layer indices with SID 0-4, 1-3 reference indices, five scalability-structure "
+         "variants incl. N_S = 7, resolutions 65535, picture groups with 0-3 P_DIFFs, reserved bits set) with and without payload, every truncation of a strided subset; bit-level uncompressed "
+         "headers for profiles 0-3 x colour spaces 0-7 x bit depth x subsampling x six sizes (1x1 .. 65536x65536) x key/inter/show-existing for vp9.Header; payloader histories of three frames "
+         "(key, inter, key) in both modes x MTU x start picture id {0,1,32766,32767} (via InitialPictureIDFn) x body lengths around the fragment budget; seeded random histories are added",
+    assumptions=COMMON_ASSUME + ["layer indices use SID 0-4 (the library rejects SID >= 5 as too many spatial layers; the VP9 bitstream allows at most five)",
+                                 "a coded size of 65536 does not fit the 16-bit SS fields: excluded from the equality clause (stated limit)",
+                                 "payloader frames carry harness-packed header bits (same layout as VP9!HeaderBits, which TLC uses for the header cases)"],
+))
